@@ -139,8 +139,8 @@ def run():
                 "(format, corrupted text, position); all kept faults are non-trivial"
                 % (FORMATS, ndocs, " (sampled to %d per document)" % budget if budget else ""))
     chk.assumptions = ["validity is decided by the reference parser of each format",
-                       "files that are not valid UTF-8 are malformed for JSON and JSON5 (RFC 8259 section 8.1) and undecided (skipped) for "
-                       "the formats that declare or sniff their encoding (YAML, XML, HTML, plist)",
+                       "files that are not valid UTF-8 are malformed for JSON, JSON5, YAML and XML without an encoding declaration, and "
+                       "undecided (skipped) for HTML (lenient parsers) and plist (binary variants)",
                        "the command runs in-process (main(argv)) with stdout/stderr captured"]
     return chk.finish()
 
